@@ -93,7 +93,9 @@ type c13Case struct {
 	// Store = "busy": another writer holds the SQLite database for the whole session (see above)
 	Store string `json:"store,omitempty"`
 	// Pool1 (busy store): the handler's database pool has a single connection
-	Pool1  bool   `json:"pool1,omitempty"`
+	Pool1 bool `json:"pool1,omitempty"`
+	// Slow (ws): receive rate 0.1/s with burst 2, and the client sends three messages before it stops reading
+	Slow   bool   `json:"slow,omitempty"`
 	StMs   int    `json:"st_ms"`
 	PingMs int    `json:"ping_ms"`
 	Obs    c13Obs `json:"obs"`
@@ -646,6 +648,9 @@ func c13RunWS(c *c13Case) {
 	opt := mocrelay.NewDefaultRelayOption()
 	opt.SendTimeout = st
 	opt.PingDuration = time.Duration(c.PingMs) * time.Millisecond
+	if c.Slow {
+		opt.RecvRateLimitRate, opt.RecvRateLimitBurst = 0.1, 2
+	}
 	relay := mocrelay.NewRelay(h, opt)
 	// the option value stays the caller's: it is reused for something else after NewRelay
 	*opt = mocrelay.RelayOption{}
@@ -658,6 +663,14 @@ func c13RunWS(c *c13Case) {
 		c.Obs.Panic = "dial: " + err.Error()
 		go srv.Close()
 		return
+	}
+	if c.Slow {
+		// three messages at once: the burst of two is used up, the relay's reader waits 10 s for its next slot
+		for k := 0; k < 3; k++ {
+			wctx, wcancel := context.WithTimeout(context.Background(), time.Second)
+			conn.Write(wctx, websocket.MessageText, []byte(`["CLOSE","x"]`))
+			wcancel()
+		}
 	}
 	// the client never reads
 	t := time.NewTimer(st + c13WsSlack)
@@ -883,6 +896,8 @@ func init() {
 		for i := 0; i < nws; i++ {
 			cs = append(cs, c13Case{K: "ws", StMs: c13WsConfigs[i][0], PingMs: c13WsConfigs[i][1]})
 		}
+		// the same with a receive rate limit the client has used up (the reader is waiting for its next slot)
+		cs = append(cs, c13Case{K: "ws", StMs: 100, PingMs: 0, Slow: true}, c13Case{K: "ws", StMs: 300, PingMs: 1000, Slow: true})
 		for i := 0; i < n; i++ {
 			cs = append(cs, c13GenSession(root.Fork(uint64(i)), i))
 		}
